@@ -176,7 +176,7 @@ def tlc(module, cfg=None, env=None, workers=1, timeout=900, coverage=False, dfs=
         raise ToolError("missing TLC config %s" % cfgfile)
     # light: many short single-threaded JVMs side by side (sharded generators, trace validators):
     # serial GC and C1-only compilation, otherwise the JVMs' own compiler/GC threads starve each other
-    jopts = (["-XX:+UseSerialGC", "-XX:TieredStopAtLevel=1", "-XX:CICompilerCount=1"] if light else ["-XX:+UseParallelGC"]) + ["-Xmx" + xmx, "-Xss1g"]
+    jopts = (["-XX:+UseSerialGC", "-XX:TieredStopAtLevel=1", "-XX:CICompilerCount=1"] if light else ["-XX:+UseParallelGC"]) + ["-Xmx" + xmx, "-Xss1g", "-Djava.io.tmpdir=" + md]
     if dfs:
         jopts.append("-Dtlc2.tool.queue.IStateQueue=StateDeque")
     cmd = ["java"] + jopts + ["-cp", TLA_CP, "tlc2.TLC", "-workers", str(workers), "-metadir", md,
